@@ -152,12 +152,46 @@ def run(c):
             max(st["filters"], 0), cb(st["sid"] == st["pid"]), sid(st["cwd"]), sid(st["host"]), dom, cb(st["ns"]["cgroup"] != own["cgroup"]))
         items.append("(%s, %s, %s, Some %s)" % (cfg, s0, cb("cgroup" in x["ns"]), ob))
         src.append(x["id"])
+    # ---- launches inside one pooled container: every launch starts in the state of its own parameters, whatever the earlier ones had
+    nhist = 6 if c.quick() else 40
+    hist = [{"id": 10000 + i, "mode": "container", "launches": [{"seccomp": r.random() < 0.5, "sync": r.random() < 0.5, "sync_after": r.random() < 0.3}
+                                                                 for _ in range(r.randint(4, 10))]} for i in range(nhist)]
+    ho = c.run_harness(exe, hist, env=env, timeout=900)
+    for x, o in zip(hist, ho):
+        if "harness_err" in o:
+            raise RuntimeError(o["harness_err"])
+        c.count(json.dumps(x["launches"]), nontrivial=len(set(l["seccomp"] for l in x["launches"])) == 2, klass="container-history")
+        for li, (l, so) in enumerate(zip(x["launches"], o["states"])):
+            st = so.get("state")
+            rep = {"launches_on_one_container": x["launches"][:li + 1], "observed": so}
+            cz = lambda what: {"kind": "secstate", "what": what, "runner": "container"}
+            if so["status"] != 1 or not st:
+                c.finding_or_violation(cz("the launch fails or the target does not run"), rep, klass="container-launch")
+                continue
+            caps = any(st["cap_eff"]) or any(st["cap_perm"]) or any(st["cap_inh"])
+            if (st["seccomp"] == 2) != l["seccomp"]:
+                c.finding_or_violation(cz("seccomp filter installed although none was given, or missing although given"), rep, klass="container-seccomp")
+            if caps or (st["securebits"] & 3) != 3 or st["nnp"] != 1 or st["sid"] != st["pid"]:
+                c.finding_or_violation(cz("capabilities / NOROOT / no_new_privs / session are not those of a container launch"), rep, klass="container-state")
+            cfg = ("{| f_cred := None; f_gidmap := true; f_gidmap_setgroups := false; f_dropcaps := true; f_nnp := true; f_seccomp := %s; f_ptrace := false; "
+                   "f_stop := false; f_sync := true; f_ucas := false; f_workdir := None; f_host := None; f_domain := None |}") % cb(l["seccomp"])
+            s0 = "start %d %d %s (Some %d%%N) (Some %d%%N) (Some %d%%N)" % (st["uid"][1], st["gid"][1], coq_list(["%d%%N" % g for g in st["groups"]]),
+                                                                           sid(st["cwd"]), sid(st["host"]), sid("<domain0>"))
+            ob = "(%d%%N, %d%%N, %s, %s, %s, %s, %s, %d, %s, Some %d%%N, Some %d%%N, Some %d%%N, false)" % (
+                st["uid"][1], st["gid"][1], coq_list(["%d%%N" % g for g in st["groups"]]), cb(caps), cb(any(st["cap_inh"])), cb(st["securebits"] & 1), cb(st["nnp"]),
+                1 if st["seccomp"] == 2 else 0, cb(st["sid"] == st["pid"]), sid(st["cwd"]), sid(st["host"]), sid("<domain0>"))
+            items.append("(%s, %s, false, Some %s)" % (cfg, s0, ob))
+            src.append(None)
+    c.cov["container_launch_histories"] = nhist
     c.sample({"configuration": cases[300], "probe_report": {k: v for k, v in (obs[300].get("state") or {}).items() if k != "ns"}, "stops": obs[300].get("stops")})
     dis = []
     for s0 in range(0, len(items), 600):
         body = HDR + "Definition cs : list (config * kst * bool * option obs) := %s.\nDefinition M := Eval vm_compute in failing state_ok cs.\nPrint M.\n" % coq_list(items[s0:s0 + 600])
         for i in c.parse_nums(c.parse_printed(c.coq_eval("states%d" % s0, body, timeout=1200), "M").replace("%N", "")):
             j = src[s0 + i]
+            if j is None:
+                dis.append({"relation": "state_ok (probe's self-report inside the container = state_at_exec of the launch's parameters)", "item": items[s0 + i][:400]})
+                continue
             dis.append({"relation": "state_ok (probe's self-report = state_at_exec of the configuration)", "configuration": cases[j],
                         "observed": {k: v for k, v in obs[j].items() if k != "own_ns"}})
     c.cov["launches"] = len(cases)
